@@ -145,7 +145,7 @@ GetMetaOK(s, e) ==
 \* C18: signal maxima.  Values are compared exactly: float/double samples are logged as dyadics on the k/1024 grid,
 \* integer samples as integers; the expected maximum is computed here from the content the model holds.
 GridQ == 10
-IsPcmInt(fmt) == Sub(fmt) \in {S_PCM_S8, S_PCM_U8, S_PCM_16, S_PCM_24, S_PCM_32}
+IsPcmInt(fmt) == IntWidth(Sub(fmt)) > 0 /\ UnnormWidth(fmt) >= IntWidth(Sub(fmt))     \* every integer-lossless encoding (PCM, ALAC, DWVW, PAF-24, DPCM-16, SDS-16)
 IsFloatEnc(fmt) == Sub(fmt) \in {S_FLOAT, S_DOUBLE}
 PeakContainer(fmt) == Major(fmt) \in {M_WAV, M_WAVEX, M_AIFF, M_CAF}
 
@@ -164,10 +164,10 @@ FirstAt(s, cv, I, k) == (CHOOSE i \in I : ItemKey(s, cv, i) = k /\ \A j \in I : 
 \* the dyadic a command must return for magnitude key k
 KeyValue(s, k, norm) ==
     IF IsFloatEnc(s.fmt) THEN DyNorm(k, -GridQ)
-    ELSE IF norm THEN DyNorm(k, -(IntWidth(Sub(s.fmt)) - 1)) ELSE DyNorm(k, 0)
+    ELSE IF norm THEN DyNorm(k, -(IntWidth(Sub(s.fmt)) - 1)) ELSE DyNorm(k, UnnormWidth(s.fmt) - IntWidth(Sub(s.fmt)))    \* (the unnormalised double of the code)
 
 CalcValsOK(s, cv, e) ==
-    (AllKnown(s, cv) /\ s.mode # SFM_WRITE /\ ~s.relax) =>
+    (AllKnown(s, cv) /\ s.mode # SFM_WRITE /\ ~s.relax /\ s.skb) =>          \* (the scan needs a seekable handle)
       LET norm == e.name \in {"CALC_NORM_SIGNAL_MAX", "CALC_NORM_MAX_ALL_CHANNELS"}
           all  == 1..(s.frames * s.ch) IN
       CASE e.name \in {"CALC_SIGNAL_MAX", "CALC_NORM_SIGNAL_MAX"} ->
@@ -359,9 +359,9 @@ OpenClass(e) ==
 OpenOK(e) ==
     CASE e.mode = "rw" /\ e.ok = 0 -> OpenFailedOK(e)       \* the library decides which encodings can be opened RDWR (C08 quantifies over those)
       \* C14: embedding / pipes only for the containers that support them (docs: WAV, AIFF, AU; WAVEX shares the WAV parser):
-      \* for those a valid file embedded at an offset must open
+      \* for those a valid file embedded at an offset or arriving through a pipe must open
       [] e.route \in {"emb44", "emb4096", "embz44", "embz4096", "embw44", "pipe"} /\ e.ok = 0
-         /\ ~(e.route # "pipe" /\ e.mode = "r" /\ OpenClass(e) = "written" /\ Major(FileOf(e).fmt) \in {M_WAV, M_WAVEX, M_AIFF, M_AU}) -> OpenFailedOK(e)
+         /\ ~(e.mode = "r" /\ OpenClass(e) = "written" /\ Major(FileOf(e).fmt) \in {M_WAV, M_WAVEX, M_AIFF, M_AU}) -> OpenFailedOK(e)
       [] OpenClass(e) = "new" -> IF FaultOn(e) \/ CfgRelax THEN (e.ok = 0 => OpenFailedOK(e)) ELSE OpenNewOK(e)
       [] OpenClass(e) = "written" -> OpenWrittenOK(e, FileOf(e))
       [] OpenClass(e) = "foreign" -> OpenForeignOK(e)
